@@ -1,6 +1,6 @@
 (** Proofs about model/Image.v (C15).  The statements of the main lemmas (those listed
     in props/C15.v) are fixed; everything else is auxiliary. *)
-From Coq Require Import QArith Qround Qabs Lia Lqa Permutation.
+From Coq Require Import QArith Qround Qabs Qpower Lia Lqa Permutation.
 From V.lib Require Import Prelude.
 From V.model Require Import PackUri Image.
 From V.proofs Require Import Prelude_proofs PackUri_proofs.
@@ -198,25 +198,45 @@ Proof.
   - intros E. right. auto.
 Qed.
 
-Definition ext_row_ok (fe : str * str) : bool :=
-  ext_ok (snd fe) &&
-  match assoc (snd fe) image_content_types with
+(** every extension Image.ext can return: the values of the format map and those of the
+    header rules *)
+Definition all_exts : list str := map snd ext_map ++ map snd ext_special.
+
+Definition ext_row_ok (e : str) : bool :=
+  ext_ok e &&
+  match assoc e image_content_types with
   | Some ct => ct_is_imagepart ct
   | None => false
   end.
 
-Lemma ext_map_rows_ok : forallb ext_row_ok ext_map = true.
+Lemma all_exts_ok : forallb ext_row_ok all_exts = true.
 Proof. vm_compute. reflexivity. Qed.
 
-Lemma image_ext_ok m e : image_ext m = Ok e ->
+Lemma special_ext_In f b rules e : special_ext f b rules = Some e -> In e (map snd rules).
+Proof.
+  induction rules as [|[[[g off] magic] e'] r IH]; simpl; [discriminate|].
+  destruct (str_eqb f g && str_eqb (slice b off (length magic)) magic).
+  - intros Q; inversion Q; auto.
+  - intros Q; right; auto.
+Qed.
+
+Lemma image_ext_In b m e : image_ext b m = Ok e -> In e all_exts.
+Proof.
+  destruct m as [|[f|] w h d x]; cbn [image_ext]; try discriminate.
+  unfold all_exts. rewrite in_app_iff.
+  destruct (special_ext f b ext_special) as [e'|] eqn:S.
+  - intros Q; inversion Q; subst e'. right. eapply special_ext_In; eauto.
+  - destruct (assoc f ext_map) as [e'|] eqn:E; try discriminate.
+    intros Q; inversion Q; subst e'. left. apply assoc_In in E.
+    change e with (snd (f, e)). apply in_map. exact E.
+Qed.
+
+Lemma image_ext_ok b m e : image_ext b m = Ok e ->
   ext_ok e = true /\ exists ct, ext_content_type e = Ok ct /\ ct_is_imagepart ct = true.
 Proof.
-  destruct m as [|[f|] w h d]; cbn [image_ext]; try discriminate.
-  destruct (assoc f ext_map) as [e'|] eqn:E; try discriminate.
-  intros Q; inversion Q; subst e'.
-  apply assoc_In in E.
-  pose proof (proj1 (forallb_forall _ _) ext_map_rows_ok _ E) as R.
-  unfold ext_row_ok in R. cbn [snd] in R. apply andb_true_iff in R as [R1 R2].
+  intros E. apply image_ext_In in E.
+  pose proof (proj1 (forallb_forall _ _) all_exts_ok _ E) as R.
+  unfold ext_row_ok in R. apply andb_true_iff in R as [R1 R2].
   split; [exact R1|]. unfold ext_content_type.
   destruct (assoc e image_content_types) as [ct|]; [|discriminate].
   exists ct. auto.
@@ -305,12 +325,12 @@ Section StoreProofs.
   Lemma new_image_part_spec ps im p : new_image_part ps im = Ok p ->
     p_blob p = i_blob im /\ p_meta p = i_meta im /\ visible p = true /\ cls_by_ct p /\
     ~ In (p_name p) (names ps) /\
-    exists e, image_ext (i_meta im) = Ok e /\
+    exists e, image_ext (i_blob im) (i_meta im) = Ok e /\
               p_name p = image_partname (next_image_idx (names ps)) e /\
               ext (p_name p) = e /\ ext_content_type e = Ok (p_ct p).
   Proof.
-    unfold new_image_part. destruct (image_ext (i_meta im)) as [e|] eqn:E; cbn [bind]; [|discriminate].
-    destruct (image_ext_ok _ _ E) as [He [ct [Hct Hcls]]].
+    unfold new_image_part. destruct (image_ext (i_blob im) (i_meta im)) as [e|] eqn:E; cbn [bind]; [|discriminate].
+    destruct (image_ext_ok _ _ _ E) as [He [ct [Hct Hcls]]].
     fold (names ps). rewrite next_image_partname_ok. cbn [bind]. rewrite Hct. cbn [bind].
     intros Q; injection Q as <-. cbn [p_blob p_meta p_name p_ct p_cls p_rel visible andb].
     repeat split; auto.
@@ -596,7 +616,7 @@ Section StoreTheorems.
   Lemma new_part_type ps im ps' p : get_or_add H ps im = Ok (ps', p) ->
     find_by_digest H (H (i_blob im)) ps = None ->
     p_blob p = i_blob im /\ ~ In (p_name p) (map p_name ps) /\
-    exists e, image_ext (i_meta im) = Ok e /\ ext (p_name p) = e /\
+    exists e, image_ext (i_blob im) (i_meta im) = Ok e /\ ext (p_name p) = e /\
               assoc e image_content_types = Some (p_ct p).
   Proof.
     intros G F. destruct (get_or_add_spec H _ _ _ _ G) as [[_ F']|[_ [_ N]]]; [congruence|].
@@ -834,33 +854,44 @@ Proof.
   set (qq := (914400 * px) / dpi) in *. set (mm := (914400 * px) mod dpi) in *. nia.
 Qed.
 
-Lemma native_size_spec f w h d : 0 <= w -> 0 <= h ->
-  forall cx cy, native_size (Meta f w h d) = Ok (cx, cy) ->
-  exists hd vd, normalize_pil_dpi d = Ok (hd, vd) /\ 1 <= hd <= 2048 /\ 1 <= vd <= 2048 /\
+Lemma native_size_spec f w h d x : 0 <= w -> 0 <= h ->
+  forall cx cy, native_size (Meta f w h d x) = Ok (cx, cy) ->
+  exists hd vd, normalize_pil_dpi (eff_dpi f d x) = Ok (hd, vd) /\ 1 <= hd <= 2048 /\ 1 <= vd <= 2048 /\
     cx * hd <= 914400 * w < (cx + 1) * hd /\ cy * vd <= 914400 * h < (cy + 1) * vd.
 Proof.
-  intros Hw Hh cx cy. unfold native_size. simpl.
-  destruct (normalize_pil_dpi d) as [[hd vd]|] eqn:E; simpl; [|discriminate].
+  intros Hw Hh cx cy. unfold native_size. cbn [meta_dpi meta_px].
+  destruct (normalize_pil_dpi (eff_dpi f d x)) as [[hd vd]|] eqn:E; cbn [bind fst snd]; [|discriminate].
   intros Q; injection Q as <- <-.
   destruct (normalize_range _ _ _ E) as [R1 R2].
   exists hd, vd. repeat split; auto; try lia; apply native_dim_spec; lia.
 Qed.
 
-Lemma native_size_total f w h d : (forall x y, d = PTuple x y -> x <> DInf /\ y <> DInf) ->
-  exists cx cy, native_size (Meta f w h d) = Ok (cx, cy).
+Lemma native_size_nodpi f w h d x : eff_dpi f d x = PNoTuple ->
+  native_size (Meta f w h d x) = Ok (12700 * w, 12700 * h).
 Proof.
-  intros Hd. unfold native_size. simpl. destruct d as [|x y]; simpl; eauto.
-  destruct (Hd x y eq_refl) as [Hx Hy].
-  destruct (int_dpi_total x Hx) as [a ->]. destruct (int_dpi_total y Hy) as [b ->]. simpl. eauto.
-Qed.
-
-(** no dpi entry: 72 dpi, that is 12700 EMU per pixel *)
-Lemma native_size_default f w h : native_size (Meta f w h PNoTuple) = Ok (12700 * w, 12700 * h).
-Proof.
-  unfold native_size, native_dim. simpl fst. simpl snd. cbn [meta_dpi normalize_pil_dpi meta_px bind fst snd].
+  intros E. unfold native_size, native_dim. cbn [meta_dpi meta_px]. rewrite E.
+  cbn [normalize_pil_dpi bind fst snd].
   replace (914400 * w) with (12700 * w * 72) by lia.
   replace (914400 * h) with (12700 * h * 72) by lia.
   rewrite !Z.quot_mul by lia. reflexivity.
+Qed.
+
+(** no dpi entry: 72 dpi, that is 12700 EMU per pixel *)
+Lemma native_size_default f w h x : native_size (Meta f w h PNoTuple x) = Ok (12700 * w, 12700 * h).
+Proof. apply native_size_nodpi. unfold eff_dpi. destruct (existsb _ _); reflexivity. Qed.
+
+(** a TIFF for which Pillow read no XResolution tag: whatever dpi entry Pillow made up is
+    dropped, so the image is sized at 72 dpi *)
+Lemma native_size_tiff_nores w h d :
+  native_size (Meta (Some [84; 73; 70; 70]%N) w h d false) = Ok (12700 * w, 12700 * h).
+Proof. apply native_size_nodpi. reflexivity. Qed.
+
+(** in every other case the dpi entry Pillow reports is the one used *)
+Lemma eff_dpi_kept f d x : x = true \/ fmt_is f [84; 73; 70; 70]%N = false -> eff_dpi f d x = d.
+Proof.
+  intros [->|E]; unfold eff_dpi, dpi_drop_rules; cbn [existsb fst snd].
+  - rewrite andb_false_r. reflexivity.
+  - rewrite E. reflexivity.
 Qed.
 
 (* ================================================================== table obligations (generic part) *)
@@ -870,23 +901,23 @@ Definition pair_mem (k v : str) (l : list (str * str)) : bool :=
 Definition key_functional (k v : str) (l : list (str * str)) : bool :=
   forallb (fun r => negb (str_eqb (fst r) k) || str_eqb (snd r) v) l.
 
-(** every extension the format map yields has a content type, that pair is a Default row
-    of the content-types writer and the only row for that extension, and the content
-    type is one the part factory maps to ImagePart *)
-Definition tables_ok (em ict dct : list (str * str)) (ipc : list str) : bool :=
-  forallb (fun fe =>
-    match assoc (snd fe) ict with
-    | Some ct => pair_mem (snd fe) ct dct && key_functional (snd fe) ct dct && mem_str ct ipc
+(** every extension in the list has a content type, that pair is a Default row of the
+    content-types writer and the only row for that extension, and the content type is one
+    the part factory maps to ImagePart *)
+Definition tables_ok (exts : list str) (ict dct : list (str * str)) (ipc : list str) : bool :=
+  forallb (fun e =>
+    match assoc e ict with
+    | Some ct => pair_mem e ct dct && key_functional e ct dct && mem_str ct ipc
     | None => false
-    end) em.
+    end) exts.
 
-Lemma tables_ok_sound em ict dct ipc : tables_ok em ict dct ipc = true ->
-  forall fmt e, assoc fmt em = Some e ->
+Lemma tables_ok_sound exts ict dct ipc : tables_ok exts ict dct ipc = true ->
+  forall e, In e exts ->
   exists ct, assoc e ict = Some ct /\ In (e, ct) dct /\
              (forall ct', In (e, ct') dct -> ct' = ct) /\ In ct ipc.
 Proof.
-  intros T fmt e A. apply assoc_In in A.
-  pose proof (proj1 (forallb_forall _ _) T _ A) as R. cbn [snd] in R.
+  intros T e A.
+  pose proof (proj1 (forallb_forall _ _) T _ A) as R. cbn beta in R.
   destruct (assoc e ict) as [ct|]; [|discriminate].
   apply andb_true_iff in R as [R R3]. apply andb_true_iff in R as [R1 R2].
   exists ct. split; [reflexivity|]. split; [|split].
@@ -984,4 +1015,356 @@ Proof.
   intros fl P E I icx icy Sx Sy. split.
   - intros x cy Hx Hcy Hi Sx'. apply (scale_width_given fl P E I); auto.
   - intros y cx Hy Hcx Hi Sy'. apply (scale_height_given fl P E I); auto.
+Qed.
+
+(* ================================================================== fl64 meets the premises of the scale bound *)
+Section Fl64.
+Local Open Scope Q_scope.
+
+Lemma pow2Q_power e : pow2Q e == 2 ^ e.
+Proof.
+  unfold pow2Q. destruct (Z.leb_spec 0 e) as [He|He].
+  - rewrite Zpower_Qpower by lia. reflexivity.
+  - assert (E : (e = - (- e))%Z) by lia. rewrite E at 2. rewrite Qpower_opp.
+    rewrite <- (Zpower_Qpower 2 (- e)) by lia.
+    assert (P : (0 < 2 ^ (- e))%Z) by (apply Z.pow_pos_nonneg; lia).
+    destruct (2 ^ (- e))%Z as [|p|p] eqn:Ep; try lia.
+    simpl. unfold Qinv, inject_Z. simpl. reflexivity.
+Qed.
+
+Lemma pow2Q_pos e : 0 < pow2Q e.
+Proof. rewrite pow2Q_power. apply Qpower_0_lt. lra. Qed.
+
+Lemma pow2Q_add a b : pow2Q (a + b) == pow2Q a * pow2Q b.
+Proof. rewrite !pow2Q_power. apply Qpower_plus. lra. Qed.
+
+Lemma pow2Q_nonneg_inj e : (0 <= e)%Z -> pow2Q e = inject_Z (2 ^ e).
+Proof. intros He. unfold pow2Q. destruct (Z.leb_spec 0 e); [reflexivity|lia]. Qed.
+
+Lemma pow2Q_1 : pow2Q 1 == 2. Proof. reflexivity. Qed.
+Lemma pow2Q_0 : pow2Q 0 == 1. Proof. reflexivity. Qed.
+
+(** scaledQ a d e is (a/d) / 2^e *)
+Lemma scaledQ_spec a d e : (0 < d)%Z -> scaledQ a d e * pow2Q e == inject_Z a / inject_Z d.
+Proof.
+  intros Hd. unfold scaledQ.
+  assert (D0 : ~ inject_Z d == 0) by (unfold Qeq; simpl; lia).
+  destruct (Z.leb_spec 0 e) as [He|He].
+  - rewrite pow2Q_nonneg_inj by lia.
+    assert (P : (0 < 2 ^ e)%Z) by (apply Z.pow_pos_nonneg; lia).
+    assert (P2 : (0 < d * 2 ^ e)%Z) by nia.
+    assert (E0 : ~ inject_Z (2 ^ e) == 0) by (unfold Qeq; simpl; lia).
+    setoid_replace (a # Z.to_pos (d * 2 ^ e)) with (inject_Z a / (inject_Z d * inject_Z (2 ^ e))).
+    + field. split; auto.
+    + rewrite <- inject_Z_mult. unfold Qeq, Qdiv, Qmult, Qinv, inject_Z. simpl.
+      destruct (d * 2 ^ e)%Z as [|p|p] eqn:Ep; try lia. simpl. lia.
+  - unfold pow2Q. destruct (Z.leb_spec 0 e); [lia|].
+    assert (P : (0 < 2 ^ (- e))%Z) by (apply Z.pow_pos_nonneg; lia).
+    unfold Qeq, Qdiv, Qmult, Qinv, inject_Z. simpl.
+    destruct d as [|p|p]; try lia. simpl.
+    destruct (2 ^ (- e))%Z as [|p2|p2] eqn:Ep; try lia. simpl. lia.
+Qed.
+
+
+Lemma pow2Q_mono a b : (a <= b)%Z -> pow2Q a <= pow2Q b.
+Proof.
+  intros H. replace b with (a + (b - a))%Z by lia. rewrite pow2Q_add.
+  assert (P : 0 < pow2Q a) by apply pow2Q_pos.
+  assert (O : 1 <= pow2Q (b - a)).
+  { rewrite pow2Q_nonneg_inj by lia.
+    assert (0 < 2 ^ (b - a))%Z by (apply Z.pow_pos_nonneg; lia).
+    change 1 with (inject_Z 1). rewrite <- Zle_Qle. lia. }
+  nra.
+Qed.
+
+Lemma pow2Q_neg_inv k : pow2Q (- k) * pow2Q k == 1.
+Proof. rewrite <- pow2Q_add. replace (- k + k)%Z with 0%Z by lia. reflexivity. Qed.
+
+Definition gek (a d k : Z) : bool :=
+  if (0 <=? k)%Z then (d * 2 ^ k <=? a)%Z else (d <=? a * 2 ^ (- k))%Z.
+
+Lemma gek_spec a d k : gek a d k = true <-> inject_Z d * pow2Q k <= inject_Z a.
+Proof.
+  unfold gek. destruct (Z.leb_spec 0 k) as [Hk|Hk].
+  - rewrite pow2Q_nonneg_inj by lia. rewrite <- inject_Z_mult, <- Zle_Qle. apply Z.leb_le.
+  - rewrite Z.leb_le, Zle_Qle, inject_Z_mult. rewrite <- (pow2Q_nonneg_inj (- k)) by lia.
+    pose proof (pow2Q_pos k) as P. pose proof (pow2Q_pos (- k)) as P'. pose proof (pow2Q_neg_inv k) as I.
+    split; intros H.
+    + assert (inject_Z d * pow2Q k <= inject_Z a * pow2Q (- k) * pow2Q k) by nra.
+      assert (E : inject_Z a * pow2Q (- k) * pow2Q k == inject_Z a) by (rewrite <- Qmult_assoc, I; ring).
+      rewrite E in H0. exact H0.
+    + assert (inject_Z d * pow2Q k * pow2Q (- k) <= inject_Z a * pow2Q (- k)) by nra.
+      assert (E : inject_Z d * pow2Q k * pow2Q (- k) == inject_Z d).
+      { rewrite <- Qmult_assoc, (Qmult_comm (pow2Q k)), I. ring. }
+      rewrite E in H0. exact H0.
+Qed.
+
+Lemma log2_bounds a : (0 < a)%Z -> pow2Q (Z.log2 a) <= inject_Z a < pow2Q (Z.log2 a + 1).
+Proof.
+  intros Ha. destruct (Z.log2_spec a Ha) as [L U].
+  pose proof (Z.log2_nonneg a).
+  rewrite !pow2Q_nonneg_inj by lia. rewrite <- Zle_Qle, <- Zlt_Qlt. split; [exact L|].
+  replace (Z.log2 a + 1)%Z with (Z.succ (Z.log2 a)) by lia. exact U.
+Qed.
+
+Lemma flog2_spec a d : (0 < a)%Z -> (0 < d)%Z ->
+  inject_Z d * pow2Q (flog2 a d) <= inject_Z a < inject_Z d * pow2Q (flog2 a d + 1).
+Proof.
+  intros Ha Hd.
+  destruct (log2_bounds a Ha) as [La Ua]. destruct (log2_bounds d Hd) as [Ld Ud].
+  set (la := Z.log2 a) in *. set (ld := Z.log2 d) in *.
+  set (k0 := (la - ld)%Z).
+  assert (Up : inject_Z a < inject_Z d * pow2Q (k0 + 1)).
+  { assert (E : pow2Q (la + 1) == pow2Q (k0 + 1) * pow2Q ld).
+    { rewrite <- pow2Q_add. unfold k0. replace (la - ld + 1 + ld)%Z with (la + 1)%Z by lia. reflexivity. }
+    rewrite E in Ua. pose proof (pow2Q_pos (k0 + 1)). nra. }
+  assert (Lo : inject_Z d * pow2Q (k0 - 1) <= inject_Z a).
+  { assert (E : pow2Q la == pow2Q (k0 - 1) * pow2Q (ld + 1)).
+    { rewrite <- pow2Q_add. unfold k0. replace (la - ld - 1 + (ld + 1))%Z with la by lia. reflexivity. }
+    rewrite E in La. pose proof (pow2Q_pos (k0 - 1)). nra. }
+  unfold flog2. fold la ld k0. change (if (0 <=? k0)%Z then (d * 2 ^ k0 <=? a)%Z else (d <=? a * 2 ^ (- k0))%Z) with (gek a d k0).
+  destruct (gek a d k0) eqn:G.
+  - apply gek_spec in G. split; auto.
+  - replace (k0 - 1 + 1)%Z with k0 by lia. split; auto.
+    apply Qnot_le_lt. intros C. apply gek_spec in C. congruence.
+Qed.
+
+Lemma eps53_pow : pow2Q (-52) * (1 # 2) == eps53.
+Proof. reflexivity. Qed.
+
+Lemma Qdiv_mul_cancel a d : ~ d == 0 -> (a / d) * d == a.
+Proof. intros. field. auto. Qed.
+
+Lemma fl_pos_err a d : (0 < a)%Z -> (0 < d)%Z ->
+  Qabs (fl_pos a d - inject_Z a / inject_Z d) <= (inject_Z a / inject_Z d) * eps53.
+Proof.
+  intros Ha Hd. unfold fl_pos.
+  set (k := flog2 a d). set (e := (k - 52)%Z). set (s := scaledQ a d e).
+  set (x := inject_Z a / inject_Z d).
+  assert (Dp : 0 < inject_Z d) by (change 0 with (inject_Z 0); rewrite <- Zlt_Qlt; lia).
+  assert (D0 : ~ inject_Z d == 0) by lra.
+  assert (S : s * pow2Q e == x) by (apply scaledQ_spec; auto).
+  pose proof (rhe_near s) as N. apply Qabs_Qle_condition in N as [N1 N2].
+  destruct (flog2_spec a d Ha Hd) as [K1 _]. fold k in K1.
+  assert (XD : x * inject_Z d == inject_Z a) by (apply Qdiv_mul_cancel; auto).
+  assert (Kx : pow2Q k <= x) by (rewrite <- XD in K1; nra).
+  assert (E : pow2Q e == pow2Q k * pow2Q (-52)).
+  { rewrite <- pow2Q_add. unfold e. replace (k + -52)%Z with (k - 52)%Z by lia. reflexivity. }
+  pose proof (pow2Q_pos e) as Pe. pose proof (pow2Q_pos k) as Pk.
+  assert (E2 : pow2Q e * (1 # 2) == pow2Q k * eps53) by (rewrite E, <- eps53_pow; ring).
+  assert (Pm : 0 < eps53) by (unfold eps53; lra).
+  apply Qabs_Qle_condition. rewrite <- S. split; nra.
+Qed.
+
+Lemma fl64_err q : Qabs (fl64 q - q) <= Qabs q * eps53.
+Proof.
+  destruct q as [n d]. unfold fl64. cbn [Qnum Qden]. destruct n as [|a|a].
+  - assert (E : 0 - (0 # d) == 0) by (unfold Qeq; simpl; lia). rewrite E. simpl.
+    assert (0 <= Qabs (0 # d)) by apply Qabs_nonneg. unfold eps53. nra.
+  - assert (Q : (Z.pos a # d) == inject_Z (Z.pos a) / inject_Z (Z.pos d)) by apply Qmake_Qdiv.
+    assert (P : 0 < Z.pos a # d) by (unfold Qlt; simpl; lia).
+    rewrite (Qabs_pos (Z.pos a # d)) by lra.
+    rewrite Q. apply fl_pos_err; lia.
+  - assert (Q : (Z.neg a # d) == - (inject_Z (Z.pos a) / inject_Z (Z.pos d))).
+    { rewrite <- Qmake_Qdiv. unfold Qeq, Qopp. simpl. reflexivity. }
+    assert (P : Z.neg a # d < 0) by (unfold Qlt; simpl; lia).
+    rewrite (Qabs_neg (Z.neg a # d)) by lra. rewrite Q.
+    pose proof (fl_pos_err (Z.pos a) (Z.pos d) ltac:(lia) ltac:(lia)) as F.
+    set (x := inject_Z (Z.pos a) / inject_Z (Z.pos d)) in *. set (v := fl_pos (Z.pos a) (Z.pos d)) in *.
+    assert (E : - v - - x == - (v - x)) by ring. rewrite E, Qabs_opp.
+    assert (E2 : - - x == x) by ring. rewrite E2. exact F.
+Qed.
+
+(** the exponent is determined by the value *)
+Lemma flog2_unique x k1 k2 : pow2Q k1 <= x < pow2Q (k1 + 1) -> pow2Q k2 <= x < pow2Q (k2 + 1) -> k1 = k2.
+Proof.
+  intros [A1 B1] [A2 B2].
+  destruct (Z.lt_trichotomy k1 k2) as [L|[E|L]]; auto; exfalso.
+  - pose proof (pow2Q_mono (k1 + 1) k2 ltac:(lia)). lra.
+  - pose proof (pow2Q_mono (k2 + 1) k1 ltac:(lia)). lra.
+Qed.
+
+Lemma flog2_value a d : (0 < a)%Z -> (0 < d)%Z ->
+  pow2Q (flog2 a d) <= inject_Z a / inject_Z d < pow2Q (flog2 a d + 1).
+Proof.
+  intros Ha Hd. destruct (flog2_spec a d Ha Hd) as [K1 K2].
+  assert (Dp : 0 < inject_Z d) by (change 0 with (inject_Z 0); rewrite <- Zlt_Qlt; lia).
+  assert (XD : (inject_Z a / inject_Z d) * inject_Z d == inject_Z a) by (apply Qdiv_mul_cancel; lra).
+  set (x := inject_Z a / inject_Z d) in *. rewrite <- XD in K1, K2.
+  pose proof (pow2Q_pos (flog2 a d)). pose proof (pow2Q_pos (flog2 a d + 1)).
+  split; nra.
+Qed.
+
+Lemma fl_pos_proper a d a' d' : (0 < a)%Z -> (0 < d)%Z -> (0 < a')%Z -> (0 < d')%Z ->
+  inject_Z a / inject_Z d == inject_Z a' / inject_Z d' -> fl_pos a d == fl_pos a' d'.
+Proof.
+  intros Ha Hd Ha' Hd' E. unfold fl_pos.
+  pose proof (flog2_value a d Ha Hd) as V. pose proof (flog2_value a' d' Ha' Hd') as V'.
+  rewrite E in V. rewrite (flog2_unique _ _ _ V V').
+  set (e := (flog2 a' d' - 52)%Z).
+  assert (S : scaledQ a d e == scaledQ a' d' e).
+  { pose proof (scaledQ_spec a d e Hd) as S1. pose proof (scaledQ_spec a' d' e Hd') as S2.
+    rewrite E in S1. pose proof (pow2Q_pos e) as P.
+    assert (scaledQ a d e * pow2Q e == scaledQ a' d' e * pow2Q e) by (rewrite S1, S2; reflexivity).
+    apply (Qmult_inj_r _ _ (pow2Q e)); [lra|auto]. }
+  rewrite (rhe_proper _ _ S). reflexivity.
+Qed.
+
+Lemma fl64_proper p q : p == q -> fl64 p == fl64 q.
+Proof.
+  destruct p as [n d], q as [n' d']. intros E. unfold fl64. cbn [Qnum Qden].
+  unfold Qeq in E. cbn [Qnum Qden] in E.
+  destruct n as [|a|a], n' as [|a'|a']; try lia; try reflexivity.
+  - apply fl_pos_proper; try lia. rewrite <- !Qmake_Qdiv. unfold Qeq. simpl. lia.
+  - apply Qopp_comp. apply fl_pos_proper; try lia. rewrite <- !Qmake_Qdiv. unfold Qeq. simpl. lia.
+Qed.
+
+Lemma fl_pos_int z : (0 < z < 9007199254740992)%Z -> fl_pos z 1 == inject_Z z.
+Proof.
+  intros [Hz Hs]. unfold fl_pos.
+  pose proof (flog2_value z 1 Hz ltac:(lia)) as [V1 V2].
+  assert (X : inject_Z z / inject_Z 1 == inject_Z z) by (field).
+  rewrite X in V1, V2.
+  set (k := flog2 z 1) in *.
+  assert (Hk : (k < 53)%Z).
+  { destruct (Z.lt_ge_cases k 53) as [L|G]; auto. exfalso.
+    pose proof (pow2Q_mono 53 k G) as M.
+    assert (inject_Z z < pow2Q 53).
+    { rewrite pow2Q_nonneg_inj by lia. rewrite <- Zlt_Qlt. exact Hs. }
+    lra. }
+  set (e := (k - 52)%Z).
+  assert (He : (e <= 0)%Z) by (unfold e; lia).
+  assert (S : scaledQ z 1 e == inject_Z (z * 2 ^ (- e))).
+  { unfold scaledQ. destruct (Z.leb_spec 0 e) as [G|G].
+    - assert (e = 0%Z) by lia. rewrite H. simpl. unfold Qeq, inject_Z. simpl. lia.
+    - reflexivity. }
+  rewrite (rhe_proper _ _ S), rhe_int. rewrite inject_Z_mult.
+  rewrite <- (pow2Q_nonneg_inj (- e)) by lia.
+  rewrite <- Qmult_assoc, pow2Q_neg_inv. ring.
+Qed.
+
+Lemma fl64_int z : small z -> fl64 (inject_Z z) == inject_Z z.
+Proof.
+  unfold small. intros Hs.
+  destruct (Z.eq_dec (Z.abs z) 9007199254740992) as [E|E].
+  - destruct z as [|p|p]; try discriminate.
+    + simpl in E. injection E as ->. vm_compute. reflexivity.
+    + simpl in E. injection E as ->. vm_compute. reflexivity.
+  - unfold fl64, inject_Z. cbn [Qnum Qden]. destruct z as [|p|p].
+    + reflexivity.
+    + apply (fl_pos_int (Z.pos p)). lia.
+    + change (Z.neg p # 1) with (- inject_Z (Z.pos p)). apply Qopp_comp.
+      apply (fl_pos_int (Z.pos p)). lia.
+Qed.
+
+End Fl64.
+
+Lemma scale_one_given_fl64 : forall icx icy, small icx -> small icy ->
+  (forall x cy, x <> 0 -> truthy cy = false -> icx <> 0 -> small x ->
+     exists y, scale fl64 icx icy (Some x) cy = Ok (x, y) /\
+       (Qabs (inject_Z y * inject_Z icx - inject_Z x * inject_Z icy)
+        <= Qabs (inject_Z icx) * (1 # 2) + Qabs (inject_Z x * inject_Z icy) * (3 * eps53))%Q) /\
+  (forall y cx, y <> 0 -> truthy cx = false -> icy <> 0 -> small y ->
+     exists x, scale fl64 icx icy cx (Some y) = Ok (x, y) /\
+       (Qabs (inject_Z x * inject_Z icy - inject_Z y * inject_Z icx)
+        <= Qabs (inject_Z icy) * (1 # 2) + Qabs (inject_Z y * inject_Z icx) * (3 * eps53))%Q).
+Proof. exact (scale_one_given fl64 fl64_proper fl64_err fl64_int). Qed.
+
+Lemma fl64_premises :
+  (forall p q, (p == q)%Q -> (fl64 p == fl64 q)%Q) /\
+  (forall q, (Qabs (fl64 q - q) <= Qabs q * eps53)%Q) /\
+  (forall z, small z -> (fl64 (inject_Z z) == inject_Z z)%Q).
+Proof. exact (conj fl64_proper (conj fl64_err fl64_int)). Qed.
+
+(* ================================================================== the float quotient truncates to the exact floor *)
+Section NativeFloat.
+Local Open Scope Q_scope.
+
+Lemma Qfloor_between q z : inject_Z z <= q -> q < inject_Z (z + 1) -> Qfloor q = z.
+Proof.
+  intros L U.
+  assert (A : (z <= Qfloor q)%Z).
+  { rewrite <- (Qfloor_Z z). apply Qfloor_resp_le. exact L. }
+  assert (B : (Qfloor q < z + 1)%Z).
+  { rewrite Zlt_Qlt. eapply Qle_lt_trans; [apply Qfloor_le|exact U]. }
+  lia.
+Qed.
+
+(** int(a / b) for ints a, b computed in binary64 is the exact floor, in the range of
+    native sizes: a = 914400 * px below 2^40 and 1 <= b <= 2048 *)
+Lemma div_trunc_exact a b : (0 <= a < 1099511627776)%Z -> (1 <= b <= 2048)%Z ->
+  Qfloor (fl64 (inject_Z a / inject_Z b)) = (a / b)%Z.
+Proof.
+  intros [Ha Ha2] [Hb Hb2].
+  pose proof (Z.div_mod a b ltac:(lia)) as DM.
+  pose proof (Z.mod_pos_bound a b ltac:(lia)) as MB.
+  set (q := (a / b)%Z) in *. set (r := (a mod b)%Z) in *.
+  assert (Hq : (0 <= q)%Z) by (apply Z.div_pos; lia).
+  assert (Hqa : (q <= a)%Z) by nia.
+  assert (Bp : 0 < inject_Z b) by (change 0 with (inject_Z 0); rewrite <- Zlt_Qlt; lia).
+  assert (B2 : inject_Z b <= 2048) by (change 2048 with (inject_Z 2048); rewrite <- Zle_Qle; lia).
+  set (x := inject_Z a / inject_Z b).
+  assert (XB : x * inject_Z b == inject_Z a) by (unfold x; field; lra).
+  assert (AQ : inject_Z a == inject_Z q * inject_Z b + inject_Z r).
+  { rewrite <- inject_Z_mult, <- inject_Z_plus. rewrite DM at 1. rewrite Z.mul_comm. reflexivity. }
+  destruct (Z.eq_dec r 0) as [R0|R0].
+  - assert (X : x == inject_Z q).
+    { rewrite R0 in AQ. change (inject_Z 0) with 0 in AQ.
+      apply (Qmult_inj_r _ _ (inject_Z b)); [lra|]. rewrite XB, AQ. ring. }
+    rewrite (Qfloor_comp _ _ (fl64_proper _ _ X)).
+    rewrite (Qfloor_comp _ _ (fl64_int q ltac:(unfold small; lia))). apply Qfloor_Z.
+  - assert (R1 : 1 <= inject_Z r) by (change 1 with (inject_Z 1); rewrite <- Zle_Qle; lia).
+    assert (R2 : inject_Z r <= inject_Z b - 1).
+    { assert (T : inject_Z r + 1 <= inject_Z b).
+      { change 1 with (inject_Z 1). rewrite <- inject_Z_plus, <- Zle_Qle. lia. }
+      lra. }
+    assert (A2 : inject_Z a < 1099511627776) by (change 1099511627776 with (inject_Z 1099511627776); rewrite <- Zlt_Qlt; lia).
+    assert (A0 : 0 <= inject_Z a) by (change 0 with (inject_Z 0); rewrite <- Zle_Qle; lia).
+    assert (Q0 : 0 <= inject_Z q) by (change 0 with (inject_Z 0); rewrite <- Zle_Qle; lia).
+    set (y := x - inject_Z q).
+    assert (YB : y * inject_Z b == inject_Z r) by (unfold y; rewrite AQ in XB; nra).
+    assert (Y1 : 1 # 2048 <= y) by nra.
+    assert (Y2 : y <= 1 - (1 # 2048)) by nra.
+    assert (X0 : 0 <= x) by nra.
+    assert (X2 : x < 1099511627776) by nra.
+    pose proof (fl64_err x) as F. rewrite (Qabs_pos x X0) in F.
+    apply Qabs_Qle_condition in F as [F1 F2].
+    assert (E53 : eps53 * 1099511627776 == 1 # 8192) by reflexivity.
+    assert (Ep : 0 < eps53) by (unfold eps53; lra).
+    apply Qfloor_between.
+    + unfold y in *. nra.
+    + rewrite inject_Z_plus. change (inject_Z 1) with 1. unfold y in *. nra.
+Qed.
+
+End NativeFloat.
+
+(** int(914400 * px / dpi) evaluated in binary64 is the value the model computes on exact
+    integers, for every normalised dpi and every pixel count up to 1202440 *)
+Lemma native_float_exact px dpi : 0 <= px -> 914400 * px < 1099511627776 -> 1 <= dpi <= 2048 ->
+  Qfloor (fl64 (inject_Z (914400 * px) / inject_Z dpi)) = native_dim px dpi.
+Proof.
+  intros Hp Hs Hd. unfold native_dim. rewrite Z.quot_div_nonneg by lia.
+  apply div_trunc_exact; lia.
+Qed.
+
+(* ================================================================== instance helpers for the regenerated tables *)
+
+Lemma tables_sound_gen em sp ict dct ipc :
+  tables_ok (map snd em ++ map snd sp) ict dct ipc = true ->
+  forall e, (exists fmt, assoc fmt em = Some e) \/ In e (map (@snd (str * nat * blob) str) sp) ->
+  exists ct, assoc e ict = Some ct /\ In (e, ct) dct /\
+             (forall ct', In (e, ct') dct -> ct' = ct) /\ In ct ipc.
+Proof.
+  intros T e He. apply (tables_ok_sound _ _ _ _ T). apply in_or_app.
+  destruct He as [[fmt A]|A]; [left|right; exact A].
+  apply assoc_In in A. change e with (snd (fmt, e)). apply in_map. exact A.
+Qed.
+
+Lemma emf_by_header b w h d x :
+  image_ext b (Meta (Some [87; 77; 70]%N) w h d x) =
+  Ok (if str_eqb (slice b 40 4) [32; 69; 77; 70]%N then [101; 109; 102]%N else [119; 109; 102]%N).
+Proof.
+  cbn [image_ext special_ext ext_special]. change (length [32; 69; 77; 70]%N) with 4%nat.
+  change (str_eqb [87; 77; 70]%N [87; 77; 70]%N) with true. cbn [andb].
+  destruct (str_eqb (slice b 40 4) [32; 69; 77; 70]%N); reflexivity.
 Qed.
